@@ -29,6 +29,16 @@ def rule_z1(chk: Check, ix: Index):
                and (norm_stmt(n.func.value) == "parser" or (isinstance(n.func.value, ast.Call) and norm_stmt(n.func.value.func) == "cls"))]
         return gen, tk, mk, run
 
+    def resolved(f, e: ast.expr, depth: int = 0) -> str:
+        """Text of `e` with a local that is bound exactly once in `f` replaced by what it is bound to."""
+        if isinstance(e, ast.Name) and depth < 3:
+            params = {x.arg for x in f.node.args.args + f.node.args.kwonlyargs}
+            vals = [s.value for s in own_nodes(f.node) if isinstance(s, ast.Assign) and len(s.targets) == 1 and norm_stmt(s.targets[0]) == e.id]
+            stores = sum(1 for n in own_nodes(f.node) if isinstance(n, ast.Name) and n.id == e.id and isinstance(n.ctx, ast.Store))
+            if e.id not in params and len(vals) == 1 and stores == 1:
+                return resolved(f, vals[0], depth + 1)
+        return norm_stmt(e)
+
     a, b = pipeline(pf), pipeline(ps)
     chk.count("Z1-pipeline-agreement")
     shape_ok = all(len(x) == 1 for x in a) and all(len(x) == 1 for x in b)
@@ -47,8 +57,8 @@ def rule_z1(chk: Check, ix: Index):
                 "Z1-pipeline-agreement", "entry-points:parser-kwargs", where,
                 f"the parser is configured differently: file {ka} vs string {kb} (only `filename` may differ)")
     # start rule: "file" for files; for strings "file" unless mode == "eval"
-    ra = [norm_stmt(x) for x in a[3][0].args]
-    rb = [norm_stmt(x) for x in b[3][0].args]
+    ra = [resolved(pf, x) for x in a[3][0].args]
+    rb = [resolved(ps, x) for x in b[3][0].args]
     chk.count("Z1-pipeline-agreement")
     chk.require(ra == ["'file'"] and rb == ["mode if mode == 'eval' else 'file'"] and not a[3][0].keywords and not b[3][0].keywords,
                 "Z1-pipeline-agreement", "entry-points:start-rule", where,
@@ -75,7 +85,7 @@ def rule_z1(chk: Check, ix: Index):
                 f"{hb or 'lets everything out'} — the same source then fails with different exception classes")
     # generator argument: a readline bound method
     chk.count("Z1-pipeline-agreement")
-    ga, gb = norm_stmt(a[0][0].args[0]), norm_stmt(b[0][0].args[0])
+    ga, gb = resolved(pf, a[0][0].args[0]), resolved(ps, b[0][0].args[0])
     chk.require(ga.endswith(".readline") and gb.endswith(".readline"), "Z1-pipeline-agreement", "entry-points:readline",
                 where, f"both must feed a readline callable to the tokenizer (file: {ga}, string: {gb})")
 
